@@ -1194,12 +1194,28 @@ fn run_program(
                 }
             }
         }
-        // sample the node mutations, keeping every kind represented
+        // targeted: a Trans step whose outer terms still fit but whose middle terms do not
+        let mut targeted: Vec<Mut> = Vec::new();
+        for (i, n) in nodes.iter().enumerate() {
+            if let J::Trans(a, b) = &n.j {
+                if let Some(c) = (0..nodes.len()).find(|c| nodes[*c].l == nodes[*a].l && nodes[*c].r != nodes[*a].r && !reaches(&nodes, *c, i)) {
+                    targeted.push(Mut::SetChild(i, 0, c));
+                }
+                if let Some(c) = (0..nodes.len()).find(|c| nodes[*c].r == nodes[*b].r && nodes[*c].l != nodes[*b].l && !reaches(&nodes, *c, i)) {
+                    targeted.push(Mut::SetChild(i, 1, c));
+                }
+            }
+        }
+        while targeted.len() > 6 {
+            let k = rng.below(targeted.len());
+            targeted.swap_remove(k);
+        }
+        // sample the node mutations
         while node_muts.len() > max_muts {
             let k = rng.below(node_muts.len());
             node_muts.swap_remove(k);
         }
-        for m in node_muts {
+        for m in node_muts.into_iter().chain(targeted) {
             cands.push((Edit::None, m));
         }
         let mut obs: Vec<(Edit, Mut, bool)> = vec![(Edit::None, Mut::None, true)];
